@@ -362,13 +362,19 @@ type callResult[R any] struct {
 // gets a per-call context that is cancelled as soon as the handler returns, and the response is
 // serialised. A handler that does not return within d is abandoned (its context stays alive until Close).
 func call[Q, R proto.Message](e *Env, d time.Duration, req Q, fn func(model.OrdaServiceServer, gocontext.Context, Q) (R, error)) (R, error, bool) {
+	return callWith(e, gocontext.Background(), d, req, fn)
+}
+
+// callWith is call with the per-call context derived from parent: cancelling parent is the caller
+// giving up on the request (deadline, closed connection) while the handler is still at work.
+func callWith[Q, R proto.Message](e *Env, parent gocontext.Context, d time.Duration, req Q, fn func(model.OrdaServiceServer, gocontext.Context, Q) (R, error)) (R, error, bool) {
 	var zero R
 	in, err := roundTrip(req)
 	if err != nil {
 		return zero, fmt.Errorf("cluster: request does not survive protobuf: %w", err), false
 	}
 	svc, _ := e.current()
-	ctx, cancel := gocontext.WithCancel(gocontext.Background())
+	ctx, cancel := gocontext.WithCancel(parent)
 	e.mu.Lock()
 	e.cancelSeq++
 	id := e.cancelSeq
@@ -448,6 +454,14 @@ func (e *Env) ProcessClient(msg *model.ClientMessage, d time.Duration) (*model.C
 // ProcessPushPull calls the service's ProcessPushPull. The third result reports a timeout.
 func (e *Env) ProcessPushPull(msg *model.PushPullMessage, d time.Duration) (*model.PushPullMessage, error, bool) {
 	return call(e, d, msg, func(s model.OrdaServiceServer, ctx gocontext.Context, m *model.PushPullMessage) (*model.PushPullMessage, error) {
+		return s.ProcessPushPull(ctx, m)
+	})
+}
+
+// ProcessPushPullCtx is ProcessPushPull with a request context the caller can cancel while the
+// handler is running (what the handler sees when its client goes away or its deadline passes).
+func (e *Env) ProcessPushPullCtx(parent gocontext.Context, msg *model.PushPullMessage, d time.Duration) (*model.PushPullMessage, error, bool) {
+	return callWith(e, parent, d, msg, func(s model.OrdaServiceServer, ctx gocontext.Context, m *model.PushPullMessage) (*model.PushPullMessage, error) {
 		return s.ProcessPushPull(ctx, m)
 	})
 }
